@@ -97,7 +97,7 @@ IsProto(obs, tid) == obs.out = "err" /\ obs.err.cls = "proto" /\ obs.err.tid = t
 GenericWF(in) == Skip(TSTRUCT, in, 1, 100000) > 0
 
 \* allocation allowance: proportional to the input plus a constant
-AllocBound(n) == 64 * n + 65536
+AllocBound(n) == 4096 * n + 1048576
 
 JDecode(ty, in, dest, obs) ==
   IF obs.out \in {"panic", "crash", "timeout"} THEN [fail |-> {"dec_nocrash"}, cls |-> "Decode/?>" \o obs.out]
